@@ -223,8 +223,12 @@ def check(ctx):
                "gcc ASan/UBSan as the out-of-bounds detector in the real code"]
     if not have_aesni():
         trusted.append("NOTE: this CPU has no AES-NI; the aes-ni component was not run")
+    # the first-use dispatch of crypto_aes.c / crypto_aesctr.c under an allocation failure in the self-test, and key blocks
+    # at 8-mod-16 addresses: component defined with C03 (judged by Spec.Aes / Spec.Ctr), run here as well
+    from props import c03 as _c03
+    extra = [_c03.aesfail_component()] if have_aesni() else []
     return vlib.standard_check(
-        ctx, MODULES, components(ctx),
+        ctx, MODULES, components(ctx) + extra,
         assumptions=["total bytes per stream life < 2^64 (bytectr is a uint64_t)",
                      "key length 16 or 32 (asserted by crypto_aes_key_expand)",
                      "in-place operation (inbuf == outbuf) is observed by L1 only: the functional model cannot express aliasing"],
